@@ -256,6 +256,8 @@ class Reflector:
                         t = self._assign(tgt, self._subst_inline(v))      # same canonical form as the fact (the target renders as %rec)
                     elif kind.startswith("aug"):
                         t = self.pos_coord(v) if self.ty(tgt) == "C" else self.expr(v)
+                    elif kind.startswith("elem"):
+                        t = self.iter_canon(v, ordered=False)
                     else:
                         t = self.expr(v)
                 except Unsupported:
@@ -353,8 +355,35 @@ class Reflector:
             return "O"
         return "O"
 
+    @staticmethod
+    def _order_sensitive(loop):
+        """A loop that can stop early (break) or returns something other than a constant depends on the direction it walks in;
+        a pure search (`return True` on a hit) or a commutative accumulation does not."""
+        for n in ast.walk(loop):
+            if isinstance(n, ast.Break):
+                return True
+            if isinstance(n, ast.Return) and not (n.value is None or isinstance(n.value, ast.Constant)):
+                return True
+        return isinstance(loop.iter, ast.Call) and isinstance(loop.iter.func, ast.Name) and loop.iter.func.id == "reversed"
+
+    def iter_canon(self, it, ordered=True):
+        """Canonical text of an iterated expression: walking a coordinate-ordered sequence forward is the mirror image of walking it
+        backward (`for e in exons` <-> `for e in reversed(exons)`)."""
+        inner, backward = it, False
+        if isinstance(it, ast.Call) and isinstance(it.func, ast.Name) and it.func.id == "reversed" and len(it.args) == 1:
+            inner, backward = it.args[0], True
+        if self.ty(inner) == "S":
+            if not ordered:
+                return self.expr(inner)
+            if self.mirror:
+                backward = not backward
+            return "%s%s" % (self.expr(inner), " backwards" if backward else " forwards")
+        return self.expr(it)
+
     def _elem_ty(self, iterable, t_iter):
         """Type of an element of `iterable` (already typed t_iter)."""
+        if isinstance(iterable, ast.Call) and isinstance(iterable.func, ast.Name) and iterable.func.id == "reversed" and len(iterable.args) == 1:
+            return self._elem_ty(iterable.args[0], self.ty(iterable.args[0]))
         if t_iter == "S":
             bn = iterable.id if isinstance(iterable, ast.Name) else (iterable.attr if isinstance(iterable, ast.Attribute) else None)
             if bn in self.r.seq_elem:
@@ -703,7 +732,7 @@ class Reflector:
                 out.append((ctx, "while " + c))
                 self._block(st.body, ctx + ("while " + c,), out)
             elif isinstance(st, ast.For):
-                it = self.expr(st.iter)
+                it = self.iter_canon(st.iter, ordered=self._order_sensitive(st))
                 hdr = "for %s in %s" % (self.atom(st.target) if not isinstance(st.target, ast.Tuple) else self.atom(st.target), it)
                 out.append((ctx, hdr))
                 self._block(st.body, ctx + (hdr,), out)
